@@ -1,13 +1,16 @@
 (* Property C11: stop and cancel end the execution; late results change nothing.
    Proved (control-flow core model, one workflow execution): stop holds the requested state,
    no task is created in a stopped workflow, late results / timers / duplicates do not change
-   its state.  NOT in the model: the sub-workflow tree clauses ("every unfinished sub-workflow
-   below a cancelled workflow becomes CANCELLED together with its parent task", "reported to
-   its parent exactly once") - decided by the C09/C11 trace oracles only. *)
+   its state.  The sub-workflow tree clauses ("every unfinished sub-workflow below a cancelled
+   workflow becomes CANCELLED together with its parent task", "reported to its parent exactly
+   once") are proved over the execution-tree model Model/StopTree.v (module Tree below): for every
+   tree, every execution, every state, by induction over the tree; the model is tied to the engine
+   by harness/engine_stoptree.py. *)
 From Coq Require Import List Bool.
 Require Import Mistral.Gen.States Mistral.Model.Engine.
 Require Import Mistral.Proofs.StatesProofs Mistral.Proofs.EngineWf Mistral.Proofs.EngineSafety Mistral.Proofs.EngineMore.
 Require Import Mistral.Gen.WfGuards Mistral.Proofs.WfGuardProofs.
+Require Mistral.Model.StopTree Mistral.Proofs.StopTreeProofs.
 Import ListNotations.
 
 Theorem C11_stop_holds_requested_state : forall sp s x,
@@ -72,3 +75,109 @@ Theorem C11_stop_on_finished_changes_nothing : forall s x s1,
   is_completed (wf_state s) = true -> stop_workflow s x = Some s1 -> s1 = s.
 Proof. exact stop_on_finished_changes_nothing. Qed.
 Print Assumptions C11_stop_on_finished_changes_nothing.
+
+(* ====================================================================== *)
+(* stop / cancel over the execution tree (Model/StopTree.v)                 *)
+Module Tree.
+Import Mistral.Model.StopTree Mistral.Proofs.StopTreeProofs.
+
+(* closed form of the cancel walk for EVERY tree (any depth, any shape, any states): every unfinished execution of
+   the subtree becomes (CANCELLED, message) and - being a sub-workflow - sends one result; finished ones keep their row *)
+Theorem C11_cancel_closed_form : forall m n c, rows c (cancel c m n) = map (cancel_row m) (rows c n).
+Proof. exact cancel_rows. Qed.
+Print Assumptions C11_cancel_closed_form.
+
+Theorem C11_cancel_reaches_every_unfinished_descendant : forall m n c,
+  Forall2 (fun r r' => r_child r' = r_child r /\
+                       (r_fin r = true -> r' = r) /\
+                       (r_fin r = false -> r_state r' = CANCELLED /\ r_info r' = m /\
+                                           r_sent r' = if r_child r then S (r_sent r) else r_sent r))
+          (rows c n) (rows c (cancel c m n)).
+Proof. exact cancel_unfinished_cancelled. Qed.
+Print Assumptions C11_cancel_reaches_every_unfinished_descendant.
+
+Theorem C11_after_cancel_every_execution_finished : forall m n c, forallb r_fin (rows c (cancel c m n)) = true.
+Proof. exact cancel_all_finished. Qed.
+Print Assumptions C11_after_cancel_every_execution_finished.
+
+(* the cancel walk creates nothing and changes no task *)
+Theorem C11_cancel_creates_nothing : forall m n c, skeleton (cancel c m n) = skeleton n.
+Proof. exact cancel_skeleton. Qed.
+Print Assumptions C11_cancel_creates_nothing.
+
+(* the parent task of a sub-workflow reached by the cancel is CANCELLED once that result is processed (Plain and
+   with-items parents), unless the task had finished before *)
+Theorem C11_cancelled_child_cancels_parent_task : forall m s k subs c,
+  is_completed s = false -> In c subs -> finished c = false -> (k = Plain -> subs = [c]) ->
+  let subs' := map (cancel true m) subs in
+  fst (fst (deliver_task (s, k, subs'))) = CANCELLED.
+Proof. exact cancelled_child_cancels_parent_task. Qed.
+Print Assumptions C11_cancelled_child_cancels_parent_task.
+
+(* hand-offs in ANY order (any list of addresses, repetitions included) end in the same fully delivered tree *)
+Theorem C11_handoffs_in_any_order : forall ps n,
+  deliver_all (fold_left (fun t p => fst (deliver_at p t)) ps n) = deliver_all n.
+Proof. exact deliveries_any_order. Qed.
+Print Assumptions C11_handoffs_in_any_order.
+
+(* a finished child is accepted once: a second hand-off of the same result changes nothing *)
+Theorem C11_second_handoff_changes_nothing : forall p n n', deliver_path p n = Some n' -> deliver_path p n' = Some n'.
+Proof. exact deliver_twice. Qed.
+Print Assumptions C11_second_handoff_changes_nothing.
+
+Theorem C11_finished_parent_task_ignores_result : forall s k subs, is_completed s = true -> deliver_task (s, k, subs) = (s, k, subs).
+Proof. exact deliver_finished_task_unchanged. Qed.
+Print Assumptions C11_finished_parent_task_ignores_result.
+
+(* reported exactly once: over ANY sequence of stop / cancel / pause / resume requests on any executions and
+   hand-offs, a sub-workflow has sent exactly one result iff it is finished, none otherwise *)
+Theorem C11_reported_exactly_once : forall ops n,
+  forallb sent_right (rows false n) = true -> forallb sent_right (rows false (fold_left apply_op ops n)) = true.
+Proof. exact reported_exactly_once. Qed.
+Print Assumptions C11_reported_exactly_once.
+
+(* a finished execution never changes again (state, message, results sent), whatever requests follow *)
+Theorem C11_finished_execution_never_changes : forall ops n,
+  Forall2 (fun r r' => r_fin r = true -> r' = r) (rows false n) (rows false (fold_left apply_op ops n)).
+Proof. exact finished_rows_never_change. Qed.
+Print Assumptions C11_finished_execution_never_changes.
+
+Theorem C11_nothing_changes_below_a_cancelled_root : forall m n ops,
+  rows false (fold_left apply_op ops (cancel false m n)) = rows false (cancel false m n).
+Proof. exact nothing_changes_after_cancel. Qed.
+Print Assumptions C11_nothing_changes_below_a_cancelled_root.
+
+(* a forced stop holds the requested state with the message, or is refused with a declared error changing nothing;
+   SUCCESS / ERROR touch that one row only *)
+Theorem C11_tree_stop_holds_requested_state : forall c s m n,
+  (s = SUCCESS \/ s = ERROR \/ s = CANCELLED) ->
+  let r := stop_node c s m n in
+  (snd r = Ok /\ ((nstate (fst r) = s /\ (finished n = false -> ninfo (fst r) = m)) \/
+                  (finished n = true /\ nstate (fst r) = nstate n /\ ninfo (fst r) = ninfo n)))
+  \/ (snd r = Declared /\ fst r = n).
+Proof. exact stop_holds_state. Qed.
+Print Assumptions C11_tree_stop_holds_requested_state.
+
+Theorem C11_forced_stop_touches_one_row : forall c s m st info sent ts,
+  (s = SUCCESS \/ s = ERROR) -> ntasks (fst (stop_node c s m (mkN st info sent ts))) = ts.
+Proof. exact forced_stop_touches_one_row. Qed.
+Print Assumptions C11_forced_stop_touches_one_row.
+
+(* non-vacuity: root RUNNING with a PAUSED Plain task over a PAUSED sub-workflow (the seeded case: cancel after
+   pause), whose with-items task owns a finished (ERROR, stopped by force) execution with a RUNNING one below it
+   and a RUNNING one; cancel reaches all of them; hand-offs in two orders give the same tree *)
+Example C11_tree_nonvacuous :
+  let leaf := mkN RUNNING 0 0 [(RUNNING, Plain, [])] in
+  let forced := mkN ERROR 7 1 [(RUNNING, Plain, [leaf])] in
+  let mid := mkN PAUSED 0 0 [(PAUSED, Items, [forced; leaf])] in
+  let root := mkN RUNNING 0 0 [(PAUSED, Plain, [mid]); (SUCCESS, Plain, [])] in
+  let r := stop_at CANCELLED 3 [] root in
+  snd r = Ok /\
+  map (fun x : row => (snd (fst (fst x)), snd x)) (rows false (fst r)) =
+    [(CANCELLED, 0); (CANCELLED, 1); (ERROR, 1); (CANCELLED, 1); (CANCELLED, 1)] /\
+  fst (deliver_at [(0, 0)] (fst (deliver_at [(0, 0); (0, 1)] (fst r)))) =
+  fst (deliver_at [(0, 0); (0, 1)] (fst (deliver_at [(0, 0)] (fst r)))) /\
+  nstate (fst (stop_at SUCCESS 4 [(0, 0)] root)) = RUNNING /\ snd (stop_at SUCCESS 4 [(0, 0)] root) = Declared /\
+  snd (stop_at ERROR 4 [(0, 0)] root) = Ok.
+Proof. vm_compute. repeat split. Qed.
+End Tree.
